@@ -12,8 +12,8 @@ PUT_VALUE/ADD_PROVIDER fan-out are failed after tracking starts; `on_connection_
 every kind of action whose substream cannot be opened and tracks the substreams it opens; an
 undecodable reply fails the request).
 
-Everything is proved for every schedule of user commands, engine actions, transport events and executor
-results (`Reachable`): `waiting_owned` (the ownership invariant, by induction over the transition system
+Everything is proved for every schedule of user commands, engine actions, transport events, executor results and
+inbound substreams of remote peers (`Reachable`): `waiting_owned` (the ownership invariant, by induction over the transition system
 with the auxiliary invariants `ctx ⊆ connected` and uniqueness of the substream ids), `occupied_unreachable`,
 `terminal_once`, `terminal_accounted`, `terminal_once_at_quiescence`, `put_quorum_sound` and the clamping rule.
 The model driver still re-evaluates `WaitingOwned` on every validated trace (`!waiting-not-owned`): there it
@@ -102,6 +102,16 @@ example :
       .subOpened 1]
     Reachable s ∧ s.engine.map (fun x => (x.id, x.st.pending)) = [(0, [3, 4]), (1, [4])] ∧
       s.dials.length = 1 ∧ s.actions.length = 1 ∧ s.futs.length = 1 :=
+  ⟨reachable_run .init _, by decide⟩
+
+/-- Non-vacuity (inbound substreams are transitions of the system too): peer 4 has a request being served while
+query 0 waits for the substream it opened to peer 4; the serving future fails, `disconnect_peer(4, None)` drops the
+peer's context and pending action, and the query is told. -/
+example :
+    let s := run {} [.cmd .findNode, .established 4 [], .inbound 4, .engine (.send 0 4) [⟨true, .err, false⟩],
+      .inboundFailed 4]
+    Reachable s ∧ s.engine.map (fun x => (x.id, x.st.pending)) = [(0, [])] ∧ s.ctx = [] ∧ s.actions = [] ∧
+      s.connected = [4] :=
   ⟨reachable_run .init _, by decide⟩
 
 /-- **`Entry::Occupied` is dead code.** A peer without connection has no per-peer context in the coordinator,
